@@ -610,7 +610,23 @@ func (w *World) enumPaths(fn *ssa.Function, o EnumOpts) EnumResult {
 						}
 						clear()
 						next := idx + 1
+						nEffBefore := len(nf.effects)
 						walk(callee.Blocks[0], nil, g, depth+1, func(f2 frame, rets []ssa.Value) {
+							// deferred mutex releases registered in the helper run here, at its exit: emitted as calls (latest first)
+							var rel []Effect
+							for i := len(f2.effects) - 1; i >= nEffBefore && i >= 0; i-- {
+								if e := f2.effects[i]; e.Kind == "defer" && e.In != nil && e.In.Parent() == callee && isMutexRelease(e.Target) {
+									rel = append(rel, Effect{Kind: "call", Target: e.Target, Val: e.Val, In: e.In})
+								}
+							}
+							if len(rel) > 0 {
+								f2.effects = append(append([]Effect(nil), f2.effects...), rel...)
+								ord := append([]byte(nil), f2.order...)
+								for range rel {
+									ord = append(ord, 'E')
+								}
+								f2.order = ord
+							}
 							use(&f2)
 							rs := make([]ssa.Value, len(rets))
 							for i, r := range rets {
@@ -728,7 +744,9 @@ func (w *World) inlinableShape(f *ssa.Function) bool {
 				case *ssa.Defer:
 					// a deferred Close of a file is harmless for the rules (it is recorded where it is
 					// registered); any other deferred call keeps the function opaque
-					if name := calleeName(&x.Call); !(strings.HasSuffix(name, ".Close") || name == "invoke:Close") {
+					// … and so is a deferred release of a mutex: when the helper is spliced, the release is emitted as a call
+					// at the helper's exit (see the splice continuation in walk)
+					if name := calleeName(&x.Call); !(strings.HasSuffix(name, ".Close") || name == "invoke:Close" || isMutexRelease(name)) {
 						return false
 					}
 				case *ssa.RunDefers:
@@ -1114,4 +1132,9 @@ func subjOf(v ssa.Value) ssa.Value {
 		stack = append(stack, n.Succs...)
 	}
 	return v
+}
+
+// isMutexRelease: the (rendered) callee is Unlock / RUnlock of a sync mutex.
+func isMutexRelease(name string) bool {
+	return strings.HasSuffix(name, "Mutex).Unlock") || strings.HasSuffix(name, "Mutex).RUnlock")
 }
